@@ -155,13 +155,3 @@ package connectconformance
 //@   requires wfResults(r) && r.tracer != nil
 //@   modifies held, selWait, map[string]*tracer.traceResult, map[string]*tracer.Trace, testResults.traces
 //@   ensures @cleared !has(r.tracer.traces, testCase)
-
-// assert: the verdict for one result is recorded under the given name (what the verdict is:
-// property C03, contracts in zz_assert_verif.go).
-//@ func (*testResults).assert
-//@   trusted
-//@   requires wfResults(r) && definition != nil && actual != nil
-//@   modifies atomicI32, held, map[string]testOutcome
-//@   ensures !held[r.mu]
-//@   ensures @recorded has(r.outcomes, testCase) && !r.outcomes[testCase].setupError
-//@   ensures @kept forall k string :: old(r.outcomes != nil && has(r.outcomes, k)) ==> has(r.outcomes, k)
